@@ -773,7 +773,14 @@ run_resp(void *arg)
 					nng_msg_free(nng_aio_get_msg(QS[i].aio));
 			}
 			if (!C[i].has) {
-				if (rv != NNG_ESTATE)
+				if (g_resp_nb && rv == NNG_EAGAIN)
+					// known finding (see known_findings.json): keep
+					// exploring behind it
+					vs_soft_fail("C07:resp:estate:nonblock-eagain",
+					    "[%s] ctx%d.send (NNG_FLAG_NONBLOCK) with no "
+					    "pending survey -> NNG_EAGAIN, want NNG_ESTATE",
+					    seq, i);
+				else if (rv != NNG_ESTATE)
 					vs_fail("C07:resp:estate",
 					    "[%s] ctx%d.send (%s) with no pending survey "
 					    "-> %d (%s), want NNG_ESTATE",
